@@ -378,16 +378,18 @@ def integer_to_qubit_terms(integer_op, factors):
         dict: Pauli terms and coefficients.
     """
 
-    qubit_operator = QubitOperator()
+    terms = dict()
     for n_term, term in enumerate(integer_op):
         # Convert integer to a qubit terms (e.g. [0 1 2 3] => ((1, "Z"),
         # (2, "X"), (3, "Y"))).
         tuple_term = tuple([(qubit_i, ConvertPauli(int(term[qubit_i])).char) for
                              qubit_i in range(len(term)) if int(term[qubit_i]) > 0])
-        # If a term is the same, QubitOperator takes into account the summation.
-        qubit_operator += QubitOperator(tuple_term, factors[n_term])
+        # If a term is the same, the factors are summed. Every row keeps its
+        # term, however small its factor is: the terms stay in step with the
+        # integer array and the factors.
+        terms[tuple_term] = terms.get(tuple_term, 0.) + factors[n_term]
 
-    return qubit_operator.terms
+    return terms
 
 
 def do_commute(hybrid_op_a, hybrid_op_b, term_resolved=False):
